@@ -73,6 +73,52 @@ def buf_pieces(v):
     return v, pieces
 
 
+def buf_layout(v, depth=0):
+    """[("lit", text) | ("arg", fmtarg) | ("opaque", term)]: what a byte buffer value contains, in order"""
+    base, pieces = buf_pieces(v)
+    out = []
+
+    def lit(sx):
+        if out and out[-1][0] == "lit":
+            out[-1] = ("lit", out[-1][1] + sx)
+        else:
+            out.append(("lit", sx))
+    if isinstance(base, tuple) and base and base[0] not in ("newbuf", "default") and not (base[0] == "reserved"):
+        if base[0] in ("bytes", "str"):
+            lit(base[1])
+        elif not (is_agg(base)):
+            out.append(("opaque", base))
+    for pc in pieces:
+        if pc[0] == "fmt" and isinstance(pc[1], tuple) and pc[1][0] == "fmtargs" and isinstance(pc[1][1], str):
+            tpl, args = SM._fold_literal_args(decode_template(pc[1][1]), list(pc[1][2]))
+            for part in tpl:
+                if part[0] == "lit":
+                    lit(part[1])
+                elif part[0] == "arg" and part[1] < len(args):
+                    out.append(("arg", args[part[1]]))
+                else:
+                    out.append(("opaque", part))
+        elif pc[0] == "slice":
+            inner = pc[1]
+            while isinstance(inner, tuple) and inner and inner[0] in ("slice_of", "refconst", "&"):
+                inner = inner[1]
+            if isinstance(inner, tuple) and inner and inner[0] in ("bytes", "str"):
+                lit(inner[1])
+            elif isinstance(inner, tuple) and inner and inner[0] == "appended" and depth < 4:
+                for x in buf_layout(inner, depth + 1):
+                    if x[0] == "lit":
+                        lit(x[1])
+                    else:
+                        out.append(x)
+            else:
+                out.append(("opaque", inner))
+        elif pc[0] == "byte" and is_const(pc[1]):
+            lit(chr(pc[1][1]))
+        else:
+            out.append(("opaque", pc))
+    return out
+
+
 def length_sum(ctx, rule):
     R = prepare_rows(ctx)
     fn, outs = R["fn"], R["outs"]
@@ -180,6 +226,7 @@ def part_template(ctx, rule, boundary_tokens):
     R = prepare_rows(ctx)
     fn, outs, params = R["fn"], R["outs"], R["params"]
     n = 0
+    with_block = 0
     toks = set(boundary_tokens)
     for o in outs:
         if o.kind != "backedge":
@@ -189,37 +236,40 @@ def part_template(ctx, rule, boundary_tokens):
             continue
         n += 1
         buf = pushes[0]["args"][1]
-        base, pieces = buf_pieces(buf)
         bad = []
-        if not pieces or pieces[0][0] != "fmt":
-            bad.append("part header does not start with the formatted delimiter line")
+        # the rendered layout of the part header, whatever the number of write!/extend calls and intermediate buffers:
+        # literal text, formatted arguments, and opaque byte blocks (the pre-rendered entity headers)
+        lay = buf_layout(buf)
+        text = "".join(x[1] if x[0] == "lit" else ("{}" if x[0] == "arg" else "<O>") for x in lay)
+        m = re.fullmatch(r"\r\n--([^\r\n]+)\r\nContent-Range: bytes \{\}-\{\}/\{\}\r\n(<O>)?\r\n", text)
+        if not m:
+            if not text.startswith("\r\n--"):
+                bad.append("part header does not start with the formatted delimiter line")
+            if not text.endswith("\r\n\r\n") and not text.endswith("<O>\r\n"):
+                bad.append("the part header does not end with the blank line CRLF")
+            bad.append("part header layout %r is not `CRLF--<boundary>CRLF Content-Range: bytes {}-{}/{} CRLF [entity headers] CRLF`" % text[:120])
         else:
-            fa = pieces[0][1]
-            tt = SM.template_text(decode_template(fa[1])) if isinstance(fa[1], str) else None
-            m = re.fullmatch(r"\r\n--([^\r\n]+)\r\nContent-Range: bytes \{\}-\{\}/\{\}\r\n", tt or "")
-            if not m:
-                bad.append("part template %r is not `CRLF--<boundary>CRLF Content-Range: bytes {}-{}/{} CRLF`" % tt)
-            else:
-                toks.add(m.group(1))
-                r = None
-                for e in o.events:
-                    if e["k"] == "call" and e["callee"].get("path") == "std::iter::Iterator::next" and "slice::Iter" in (e["callee"].get("res_full") or ""):
-                        r = ("deref", ("payload", e["result"], "Some", "0"))
-                args = [a[3] if isinstance(a, tuple) and a[0] == "fmtarg" else a for a in fa[2]]
-                want = [("field", r, "start"), mk_binop("Sub", ("field", r, "end"), const(1)), params.get("len")]
-                if args != want:
-                    bad.append("part Content-Range arguments are (%s), expected (r.start, r.end - 1, entity length)" % ", ".join(short(a, 40) for a in args))
-                if any(not (isinstance(a, tuple) and a[0] == "fmtarg" and a[1] == "display" and a[2] == "u64") for a in fa[2]):
-                    bad.append("part Content-Range arguments are not Display of u64")
-        if len(pieces) < 2 or pieces[-1] != ("slice", ("bytes", "\r\n")):
-            bad.append("the part header does not end with the blank line CRLF (last append: %s)" % short(pieces[-1] if pieces else None, 60))
-        if len(pieces) != 3 or pieces[1][0] != "slice":
-            bad.append("part header is not delimiter + entity headers + blank line (%d pieces)" % len(pieces))
+            toks.add(m.group(1))
+            r = None
+            for e_ in o.events:
+                if e_["k"] == "call" and e_["callee"].get("path") == "std::iter::Iterator::next" and "slice::Iter" in (e_["callee"].get("res_full") or ""):
+                    r = ("deref", ("payload", e_["result"], "Some", "0"))
+            fargs = [x[1] for x in lay if x[0] == "arg"]
+            args = [a[3] if isinstance(a, tuple) and a[0] == "fmtarg" else a for a in fargs]
+            want = [("field", r, "start"), mk_binop("Sub", ("field", r, "end"), const(1)), params.get("len")]
+            if args != want:
+                bad.append("part Content-Range arguments are (%s), expected (r.start, r.end - 1, entity length)" % ", ".join(short(a, 40) for a in args))
+            if any(not (isinstance(a, tuple) and a[0] == "fmtarg" and a[1] == "display" and a[2] == "u64") for a in fargs):
+                bad.append("part Content-Range arguments are not Display of u64")
+            if m.group(2):
+                with_block += 1
         if bad:
             ctx.violation(rule, rule + "|" + bad[0][:40], "; ".join(bad), where=where(pushes[0]))
         else:
             ctx.ok(rule, "part header = delimiter/Content-Range(r.start, r.end-1, len) + entity headers + CRLF", where=where(pushes[0]))
     ctx.floor(rule, n, 1, what="part-header rendering rows")
+    if n and not with_block:
+        ctx.violation(rule, rule + "|no-entity-header-block", "no part-header row places the pre-rendered entity headers between the Content-Range line and the blank line")
     # entity header rendering loop: name ": " value CRLF
     nh = 0
     for o in outs:
